@@ -342,6 +342,8 @@ struct CallOpts {
     co: usize,
     /// frames of this call from this index on are zero (C16: zero padding), a size spec
     zl: Option<String>,
+    /// per-channel zero-from (absolute frame count), overrides zl for that channel
+    zc: Vec<(usize, usize)>,
 }
 
 fn parse_opts(t: &[&str]) -> Option<CallOpts> {
@@ -355,6 +357,7 @@ fn parse_opts(t: &[&str]) -> Option<CallOpts> {
         dump: false,
         co: 0,
         zl: None,
+        zc: vec![],
     };
     for w in t {
         if let Some(v) = w.strip_prefix("ic=") {
@@ -371,6 +374,9 @@ fn parse_opts(t: &[&str]) -> Option<CallOpts> {
             o.co = v.parse().ok()?;
         } else if let Some(v) = w.strip_prefix("zl=") {
             o.zl = Some(v.to_string());
+        } else if let Some(v) = w.strip_prefix("zc=") {
+            let (a, b) = v.split_once(':')?;
+            o.zc.push((a.parse().ok()?, b.parse().ok()?));
         } else if *w == "em" {
             o.em = true;
         } else if *w == "dyn" {
@@ -440,6 +446,12 @@ impl<T: Smp> Slot<T> {
             let act = mask.as_ref().map(|m| m.get(ch).copied().unwrap_or(true)).unwrap_or(true);
             if o.em && !act {
                 len = 0;
+            }
+            let mut zl = zl;
+            for (c, z) in &o.zc {
+                if *c == ch {
+                    zl = *z;
+                }
             }
             let mut cv = Vec::with_capacity(len);
             for k in 0..len {
